@@ -40,6 +40,14 @@ class Repo:
         self._src: dict[str, str] = {}
         self._tree: dict[str, ast.Module] = {}
         self.consulted: set[str] = set()
+        self._normaliser = None
+
+    @property
+    def normaliser(self):
+        if self._normaliser is None:
+            from .normalise import Normaliser
+            self._normaliser = Normaliser(self)
+        return self._normaliser
 
     def with_overlay(self, overlay: dict[str, str]) -> 'Repo':
         ov = dict(self.overlay)
@@ -71,8 +79,38 @@ class Repo:
                 for child in ast.iter_child_nodes(node):
                     child._parent = node  # type: ignore[attr-defined]
             t._rel = rel  # type: ignore[attr-defined]
+            t._repo = self  # type: ignore[attr-defined]
             self._tree[rel] = t
         return self._tree[rel]
+
+    def expanded_functions(self, rel: str) -> list[tuple[ast.ClassDef | None, ast.AST]]:
+        """(class or None, function in normal form) for the functions of a module: helpers that are
+        inlined into a caller by the normaliser are not listed on their own"""
+        cache = getattr(self, '_expfn', None)
+        if cache is None:
+            cache = self._expfn = {}
+        if rel in cache:
+            return cache[rel]
+        tree = self.tree(rel)
+        nz = self.normaliser
+        items: list[tuple[ast.ClassDef | None, ast.AST, str]] = []
+        for n in tree.body:
+            if isinstance(n, (ast.FunctionDef, ast.AsyncFunctionDef)):
+                items.append((None, n, n.name))
+            elif isinstance(n, ast.ClassDef):
+                for m in n.body:
+                    if isinstance(m, (ast.FunctionDef, ast.AsyncFunctionDef)):
+                        items.append((n, m, f'{n.name}.{m.name}'))
+        before = len(nz.inlined)
+        out = []
+        expanded = [(c, nz.expand(f), q, f) for c, f, q in items]
+        inlined_names = {x.split('::', 1)[1].split(' -> ')[0] for x in nz.inlined}
+        for c, ef, q, f in expanded:
+            if nz.is_new(rel, q) and f.name in inlined_names:
+                continue
+            out.append((c, ef))
+        cache[rel] = out
+        return out
 
     def py_files(self, sub: str = 'dashlive') -> list[str]:
         out = set()
@@ -173,11 +211,22 @@ def find_class(tree: ast.Module, name: str) -> ast.ClassDef | None:
     return None
 
 
-def find_func(scope: ast.AST, name: str) -> ast.FunctionDef | None:
+def find_func(scope: ast.AST, name: str, raw: bool = False) -> ast.FunctionDef | None:
+    """the function `name` of a class or module, in normal form (helpers that are new relative
+    to the baseline inventory inlined, match -> if, conditional expressions -> if/else; see
+    sa/normalise.py).  raw=True gives the node as written."""
     body = getattr(scope, 'body', [])
     for n in body:
         if isinstance(n, (ast.FunctionDef, ast.AsyncFunctionDef)) and n.name == name:
-            return n  # type: ignore[return-value]
+            if raw:
+                return n  # type: ignore[return-value]
+            mod = n
+            while getattr(mod, '_parent', None) is not None:
+                mod = mod._parent
+            repo = getattr(mod, '_repo', None)
+            if repo is None:
+                return n  # type: ignore[return-value]
+            return repo.normaliser.expand(n)  # type: ignore[return-value]
     return None
 
 
@@ -433,7 +482,8 @@ def run_check(prop: str, analyse: Callable[[Report], None], tier: str,
     if st_errors and not unlisted:
         rep.errors.extend(st_errors)
     wall = time.time() - t0
-    write_evidence(rep, tier, seed, wall, known_hit, unlisted, st)
+    if not os.environ.get('SA_NO_EVIDENCE'):
+        write_evidence(rep, tier, seed, wall, known_hit, unlisted, st)
 
     for r in rep.rules.values():
         tag = ' (informational)' if r.informational else ''
